@@ -93,16 +93,17 @@ HARNESSES = [
 ]
 
 # ---- stream-driven scanners of cppPreprocessor.cxx ------------------------------------------------------------------
+_IFGET = ['_ZN15CPPPreprocessor9InputFile3getEv', '_ZN15CPPPreprocessor9InputFile4peekEv']   # served from the harness byte buffer
 _TRIM = '_ZL11trim_blanksRKNSt7__cxx1112basic_stringIcSt11char_traitsIcESaIcEEE'
 
 def _scan(id_, entry, desc, domain, extra_h=(), q=4, t=6):
     return {'id': id_, 'property': 'C15', 'src': 'c15_scanners.cxx', 'entry': entry,
-            'tus': _TUS, 'skip_ctors': _SKIP, 'cut': _CUT_HEAP_STRINGS, 'export': [_TRIM], 'models': ['noinline.c'],
+            'tus': _TUS, 'skip_ctors': _SKIP, 'cut': _CUT_HEAP_STRINGS + _IFGET, 'export': [_TRIM], 'models': ['noinline.c'],
             'tuflags': _TUF, 'hflags': _GA + list(extra_h), 'nonterm_is_violation': True,
             'desc': desc, 'domain': domain,
             'oracle': 'no crash (uncaught exception, abort, libstdc++ assertion), no memory-safety failure, every loop ends within the input length',
-            'bounds': {'quick': {'defs': {'NMAX': q}, 'unwind': q + 3, 'unwindset': {'vs_istream_bytes.0': q + 2}, 'cap': 600},
-                       'thorough': {'defs': {'NMAX': t}, 'unwind': t + 3, 'unwindset': {'vs_istream_bytes.0': t + 2}, 'cap': 3000}}}
+            'bounds': {'quick': {'defs': {'NMAX': q}, 'unwind': q + 3, 'cap': 600},
+                       'thorough': {'defs': {'NMAX': t}, 'unwind': t + 3, 'cap': 3000}}}
 
 HARNESSES += [
  _scan('c15_scan_raw', 'harness_c15_scan_raw',
